@@ -46,6 +46,13 @@ def tails(rng, tier, label_len):
     yield "punctuation", b"= = ( { < ' \" /* ;;"
     if rng.random() < (0.15 if tier == "quick" else 0.5):
         yield "long-unbroken-run", b"A" * big
+    # valid multi-byte text whose characters straddle 4096/8192-byte block
+    # boundaries, followed by binary data in a later block
+    k = rng.choice((4096, 8192, 16384))
+    ch = rng.choice(("\xe9", "\u20ac", "\U0001F600")).encode("utf-8")
+    pad = max(0, k - label_len - 1 - rng.randrange(len(ch)))
+    body = b"\n" + b" " * max(0, pad - 2) + ch * rng.randint(40, 3000)
+    yield "multibyte-straddling-block-boundary", body + b"\xff\xfe\x00" + b"z" * 30
     # first undecodable byte near a buffer boundary of the text-mode reader
     k = rng.choice((4096, 8192, 16384))
     pad = max(0, k - label_len - rng.choice((-2, -1, 0, 1, 2, 3)))
@@ -246,6 +253,7 @@ def shard(i, n, tier, seed, rec, hb):
 def finish_kwargs(rec, tier):
     req = ["trace_runs", "no_token_after_END_confirmed", "tail[random-binary]",
            "tail[utf8-text]", "tail[nuls]", "tail[undecodable-at-buffer-boundary]",
+           "tail[multibyte-straddling-block-boundary]",
            "tail[none]", "route[load(text stream)]", "route[load(binary stream)]",
            "route[loadu(file URL)]", "route[loads(bytes)]", "route[loads(str)]",
            "dump_target[binary stream]", "dump_target[text stream]",
